@@ -360,7 +360,7 @@ func (d *Datastore) storeSyncMsg(ctx context.Context, syncup *target.SyncUpdate,
 	}
 
 	for _, del := range cNotification.GetDelete() {
-		store := cachepb.Store_CONFIG
+		stores := []cachepb.Store{cachepb.Store_CONFIG}
 		if d.config.Sync != nil && d.config.Sync.Validate {
 			scRsp, err := d.schemaClient.GetSchemaSdcpbPath(ctx, del)
 			if err != nil {
@@ -368,19 +368,24 @@ func (d *Datastore) storeSyncMsg(ctx context.Context, syncup *target.SyncUpdate,
 				continue
 			}
 			if isState(scRsp) {
-				store = cachepb.Store_STATE
+				stores = []cachepb.Store{cachepb.Store_STATE}
+			} else {
+				// the state leafs below a config node are kept in the state store, they go with the node
+				stores = append(stores, cachepb.Store_STATE)
 			}
 		}
 		delPath := utils.ToStrings(del, false, false)
-		rctx, cancel := context.WithTimeout(ctx, time.Minute) // TODO:
-		defer cancel()
-		err = d.cacheClient.Modify(rctx, d.Config().Name,
-			&cache.Opts{
-				Store: store,
-			},
-			[][]string{delPath}, nil)
-		if err != nil {
-			log.Errorf("datastore %s failed to delete path %v: %v", d.config.Name, delPath, err)
+		for _, store := range stores {
+			rctx, cancel := context.WithTimeout(ctx, time.Minute) // TODO:
+			defer cancel()
+			err = d.cacheClient.Modify(rctx, d.Config().Name,
+				&cache.Opts{
+					Store: store,
+				},
+				[][]string{delPath}, nil)
+			if err != nil {
+				log.Errorf("datastore %s failed to delete path %v: %v", d.config.Name, delPath, err)
+			}
 		}
 	}
 
